@@ -9,7 +9,7 @@ func process1(obj any, mergeFrom *Document, mergeFromDocs []*Document, depth int
 	depth++
 
 	if depth > 1000 {
-		return nil, fmt.Errorf("%#v: %w", obj, ErrCircularRef)
+		return nil, fmt.Errorf("%T: %w", obj, ErrCircularRef)
 	}
 
 	switch obj2 := obj.(type) {
